@@ -497,6 +497,29 @@ func vs(a int, b ...int) int {
 		"h0 := func() {\n\tcnt++\n}\nh0()\nif cnt > 0 {\n\treturn one()\n}",
 		"h3 := func(p int) (int, int, int) {\n\treturn p, p + 1, p + 2\n}\n_, y, _ := h3(4)\nif y > 0 {\n\treturn t.M(y)\n}",
 		"m[\"k\"] = one()\nm[\"k\"] += one()\nm[\"k\"]++",
+		// the ordered paths through hidden slots (targets and receivers with calls, a call on the right only), clauses
+		// with empty parts, tuple post statements, typed nil and rune conversions
+		"s[a] += one()",
+		"s[a-a], m[\"k\"] = m[\"k\"], one()",
+		"mkT().n += one()",
+		"mkT().n++",
+		"mkT().M(one())",
+		"r = mkT().M(mkT().M(one()))",
+		"r = mkT().M(vs(one(), mk()...))",
+		"s[one()], t.n = t.n, s[0]",
+		"m[\"k\"], _ = two()",
+		"s[id(one())] = t.M(one())",
+		"mkT().n = one()",
+		"for i, j := 0, one()+2; i < j; i, j = i+1, j-1 {\n\tr++\n}",
+		"for ; a < 2; {\n\ta++\n}",
+		"for ; ; {\n\tr++\n\tbreak\n}",
+		"for i := 0; ; i++ {\n\tif i > one() {\n\t\tbreak\n\t}\n}",
+		"var u []int = nil\nr = len(u)",
+		"u := []float64(nil)\nr = len(append(u, 1))",
+		"const (\n\tca uint8 = iota\n\tcb\n)\nr = int(cb) + one()",
+		"var e any = \"s\"\nif e == nil || e == one() {\n\tr = 1\n}",
+		"u := []rune(\"héj\")\nr = len(string(u)) + len(u)",
+		"switch a {\ncase one(), id(2):\n\tr = 1\ncase 3, 4, id(5):\n\tr = 2\n}",
 		// every builtin, as a statement where Go allows it and with its value used in every position
 		"r = copy(s, mk())",
 		"r = copy(s, s[one():]) + copy(s, s)",
